@@ -309,7 +309,7 @@ var opsByMode = map[string][]string{
 	"C12": {"RemoveGapSites", "RemoveCharacterSites", "RemoveCharacterSites", "RemoveMajorityCharacterSites", "RemoveGapSeqs", "RemoveCharacterSeqs", "Clone"},
 	"C13": {"Deduplicate", "Deduplicate", "Compress", "Compress", "Clone", "Add", "CloneSeqBag"},
 	"C15": {"Mask", "Mask", "Mask", "MaskPositions", "MaskPositions", "MaskOccurences", "MaskOccurences", "MaskUnique", "Clone"},
-	"C14": {"MaxCharStats", "MaxCharStats", "Consensus", "Consensus", "CharStats", "CharStatsSite", "CharStatsSeq", "UniqueCharacters", "Entropy", "Entropy",
+	"C14": {"MaxCharStats", "MaxCharStats", "Consensus", "Consensus", "CharStats", "CharStatsSite", "CharStatsSeq", "UniqueCharacters", "Entropy", "Entropy", "EntropyAll",
 		"NbVariableSites", "InformativeSites", "AvgAllelesPerSite", "Pssm", "CountDifferences", "NumGapsUnique", "NumMutationsUnique",
 		"NumMutRef", "ListMutRef", "CountProfile", "ProfileOnly", "ProfileOnly", "SetSequenceChar", "SiteConservation", "SiteConservation", "AlphabetInfo"},
 	"C10": {"ShuffleSequences", "ShuffleSites", "Swap", "SimulateRogue", "BuildBootstrap", "Sample", "RandSubAlign", "RandSubAlign", "Mutate",
@@ -821,6 +821,12 @@ func (g *heapGen) args(h *heapRun, op string, recv int, o *obj) *Step {
 			a["site"] = f64(g.rng.Intn(L))
 		}
 		a["rmgaps"] = g.rng.Intn(2) == 0
+	case "EntropyAll":
+		if !needAl() || n == 0 || L < 1 {
+			return nil
+		}
+		a["rmgaps"] = g.rng.Intn(2) == 0
+		a["avg"] = g.rng.Intn(2) == 0
 	case "Pssm":
 		if !needAl() || n == 0 || L < 0 {
 			return nil
@@ -830,7 +836,7 @@ func (g *heapGen) args(h *heapRun, op string, recv int, o *obj) *Step {
 		if a["log"] == true && a["pc"] == "0" {
 			a["pc"] = "1"
 		}
-		a["norm"] = f64(g.rng.Intn(2))
+		a["norm"] = f64([]int{0, 1, 0, 1, 2, 2, 3, 3, 5}[g.rng.Intn(9)])
 	case "NumGapsUnique", "NumMutationsUnique":
 		if !needAl() || n == 0 {
 			return nil
